@@ -122,10 +122,22 @@ class Storage:
         self.db = ModelDB(table)
 
 
+def make_storage(table):
+    """`table` is the dictionary of the table model, or a sqlstore.BlobTable view of a real SQLiteStorage on the real sqlite."""
+    return table.storage if hasattr(table, 'storage') else Storage(table)
+
+
 class Config:
     blob_lru_cache_size = 0
     save_blobs = True
     track_bandwidth = False
+
+
+class ConfigNoSave(Config):
+    save_blobs = False            # streaming-only node: new blobs are kept in memory, blobs already on disk are still served
+
+
+CONFIG = [Config]
 
 
 class DirEntry:
@@ -162,7 +174,7 @@ def fs_models(files):
 
 
 def start(table):
-    m = BlobManager(LOOP[0], BLOB_DIR, Storage(table), Config())
+    m = BlobManager(LOOP[0], BLOB_DIR, make_storage(table), CONFIG[0]())
     C01_VM[0].await_(m.setup())
     return m
 
@@ -189,10 +201,17 @@ def check_restart(files, table, before):
     return None
 
 
-def restart(vm, n, n_ops):
+def restart(vm, n, n_ops, real_sql=False):
     C01_VM[0] = vm
     LOOP[0] = Loop()
     files, table = ENV[0].state()
+    CONFIG[0] = Config
+    if real_sql and not n_ops:
+        CONFIG[0] = (Config, ConfigNoSave)[vm.pick('save_blobs_disabled_at_restart', 2)]
+    if real_sql:
+        # the real SQLiteStorage on the real sqlite3 library (in-memory, real schema): no statement is modelled
+        from harness.sqlstore import new_storage, BlobTable
+        table = BlobTable(new_storage(LOOP[0]))
     for h in HASHES[:n]:
         if vm.new_bool('file_present'):
             files[h] = 1000
@@ -233,9 +252,35 @@ def restart(vm, n, n_ops):
                 files.pop(h, None)
             else:                                           # a file appears behind the daemon's back
                 files.setdefault(h, 3000)
-    before = dict(table)
+    before = table.snapshot() if real_sql else dict(table)
     bad = check_restart(files, table, before)
     return bad or 'ok'
+
+
+def many_files(vm, n_files):
+    """A start-up that finds n_files blob files the database knows nothing about (a restored blob directory, a recreated database):
+    every one of them is recorded as finished - the reconciliation works in batches of 500."""
+    C01_VM[0] = vm
+    LOOP[0] = Loop()
+    CONFIG[0] = Config
+    files, table = ENV[0].state()
+    from harness.sqlstore import new_storage, BlobTable
+    table = BlobTable(new_storage(LOOP[0]))
+    known = vm.pick('files_already_recorded', 3)
+    for i in range(n_files):
+        h = '%096x' % (i + 1)
+        files[h] = 1000 + i
+        if i < known:
+            table[h] = 'finished'
+    start(table)
+    snap = table.snapshot()
+    for h in files:
+        if snap.get(h) != 'finished':
+            return 'VIOLATION: a blob file present at start-up is not recorded as finished'
+    again = start(table)
+    if set(again.completed_blob_hashes) != set(files):
+        return 'VIOLATION: a further restart with nothing changed does not report exactly the files present'
+    return 'ok'
 
 
 # ------------------------------------------------------------------------------------------------ runner interface
@@ -287,6 +332,15 @@ def jobs(tier):
                         bounds=dict(blobs=n, start_state='every combination of file present x row absent/pending/finished',
                                     session_operations=ops, operations='complete (crash before/after the db write) / delete / delete + crash / '
                                     'file removed / file added'), must_reach=('ok',)))
+    for n, ops in (((2, 1), (3, 0)) if tier == 'quick' else ((2, 0), (3, 0), (2, 1), (2, 2), (3, 1))):
+        out.append(dict(name=f'restart-real-sqlite-{n}blobs-{ops}ops', family='restart', fn='restart', args=(n, ops, True), loop_bound=400, max_depth=60,
+                        cost=6 ** n * 12 ** ops,
+                        bounds=dict(blobs=n, start_state='every combination of file present x row absent/pending/finished',
+                                    session_operations=ops, operations='complete (crash before/after the db write) / delete / delete + crash / '
+                                    'file removed / file added', sql='executed by the real sqlite3 library on the real schema'), must_reach=('ok',)))
+    for n_files in ((501, 1003) if tier == 'quick' else (499, 500, 501, 502, 1001, 1002, 1003, 1504)):
+        out.append(dict(name=f'restart-{n_files}-unrecorded-files', family='restart', fn='many_files', args=(n_files,), loop_bound=4000, max_depth=80,
+                        cost=n_files, bounds=dict(files=n_files, recorded_before='0, 1 or 2 of them', sql='real sqlite3'), must_reach=('ok',)))
     return out
 
 
